@@ -440,3 +440,14 @@ Proof.
   intros [rank H]. specialize (H 0%nat _ eq_refl 0%nat). cbn in H.
   assert (rank 0%nat < rank 0%nat)%nat; [apply H; [left; reflexivity|discriminate]|lia].
 Qed.
+
+(* ------------------------------------------------------------------ *)
+(* work of the padding loop                                            *)
+(* ------------------------------------------------------------------ *)
+Lemma pad_count_Z len index :
+  Z.of_nat (pad_count len index) = Z.max 0 (index + 1 - len).
+Proof. unfold pad_count. lia. Qed.
+
+Lemma sort_float_site_reachable (fp : str -> bool) v :
+  fp v = false -> sort_compare_numeric fp TInt TFloat v v = Panic SortParseFloat.
+Proof. intros H. unfold sort_compare_numeric. rewrite H. reflexivity. Qed.
